@@ -103,7 +103,9 @@ func c14(c *Ctx) {
 			tab = append(tab, cPair(cStr(nm), cBool(toolValidTag(nm))))
 			nameList = append(nameList, nm)
 		}
-		nameList = append(nameList, "ignore")
+		if !names["ignore"] {
+			nameList = append(nameList, "ignore")
+		}
 		if len(nameList) > 7 {
 			nameList = nameList[:7]
 		}
@@ -125,7 +127,18 @@ func c14(c *Ctx) {
 				if m&(1<<uint(b)) != 0 {
 					set = append(set, nm)
 					v[nm] = true
+				} else if (m+b)%2 == 0 {
+					v[nm] = false // an assignment may also say "unset" explicitly
 				}
+			}
+			if m%3 == 0 { // the helper that builds an assignment from the set tags
+				v2 := buildtags.SetTags(set...)
+				for nm, val := range v {
+					if !val {
+						v2[nm] = false
+					}
+				}
+				v = v2
 			}
 			res := cs.Evaluate(v)
 			asgs = append(asgs, asg{set, res})
